@@ -216,6 +216,12 @@ def run_shard(spec):
             elif canon(intfloatnorm(res["patched"])) != canon(intfloatnorm(ex["want"])):
                 mech = "ts-splitlines-ignores-unicode-separators" if exo else ("ts-utf16-offsets-vs-python-codepoints" if ast else "ts-patch-result-differs")
                 col.violation(mech, "TS patch != Python patch (%s): %s" % (ex["origin"], first_difference(intfloatnorm(res["patched"]), intfloatnorm(ex["want"]))), wit, "ts-patch")
+            elif "patched2_error" in res or canon(res.get("patched2")) != canon(res["patched"]):
+                col.violation("ts-second-application-differs:patch", "the same diff object patched twice: %s" % (res.get("patched2_error") or first_difference(res.get("patched2"), res["patched"])), wit, "ts-patch-repeat")
+            else:
+                col.mon("ts_repeat_application")
+            if res.get("inputs_changed"):
+                col.count("observation:ts_patch_changed_its_input_objects")
             if len(c["diff"]) >= 2 or has_string_patch(c["diff"], c["base"]):
                 col.nt(chash(c["base"], c["diff"]))
                 col.count("origin:" + ex["origin"])
@@ -234,6 +240,15 @@ def run_shard(spec):
                 if canon(intfloatnorm(res["applied"])) != canon(intfloatnorm(ex["applied"])):
                     mech = "ts-splitlines-ignores-unicode-separators" if exo else ("ts-utf16-offsets-vs-python-codepoints" if ast else "ts-applyDecisions-differs")
                     col.violation(mech, "TS applyDecisions != Python apply_decisions: %s" % first_difference(intfloatnorm(res["applied"]), intfloatnorm(ex["applied"])), wit, "ts-apply")
+                elif "applied2_error" in res or canon(res.get("applied2")) != canon(res["applied"]) or canon(res.get("applied3")) != canon(res["applied"]):
+                    # Python's apply_decisions gives the same notebook however often it is called on one decision
+                    # list (C13 / C09 watch that side); the browser re-applies the same objects on every save
+                    col.violation("ts-second-application-differs:applyDecisions", "same MergeDecision objects applied again: %s" % (
+                        res.get("applied2_error") or first_difference(res.get("applied3"), res["applied"])), wit, "ts-apply-repeat")
+                else:
+                    col.mon("ts_repeat_application")
+                if res.get("inputs_changed"):
+                    col.count("observation:ts_applyDecisions_changed_its_input_objects")
                 # buildDiffs: the counterpart is Python's build_diffs (same algorithm on both sides); whether either
                 # reproduces local/remote is recorded as an observation only
                 for which, truth in (("local", ex["local"]), ("remote", ex["remote"]), ("merged", ex["applied"])):
